@@ -128,6 +128,7 @@ fn main() {
         "framerseq" => suites::framer::run_seq(&ctx),
         "asmseq" => suites::assembler::run_seq(&ctx),
         "asmscen" => suites::assembler::run_scen(&ctx),
+        "sigc01" => suites::signal::run_c01(&ctx),
         "expand" => {
             // stdin: requests whose hashes disagreed; output: the individual requests they stand for
             use std::io::BufRead;
